@@ -87,14 +87,14 @@ def check(run, replay, prop):
         variants = [("plain", "")]
         if thorough or prop in ("C01",):
             variants += [("branchable", ""), ("indexed", "")]
-    viol, tot = [], dict(behaviours=0, steps=0, comparisons=0, cid_reads=0, deliveries=0, redeliveries=0, async_behaviours=0)
+    viol, tot = [], dict(behaviours=0, steps=0, comparisons=0, cid_reads=0, deliveries=0, redeliveries=0, async_behaviours=0, subscription_behaviours=0, subscription_results=0)
     samples = []
     herrs = []
     for vname, _ in variants:
         for i, f in enumerate(files):
             out = os.path.join(run.tmp, "res-%s-%d.json" % (vname, i))
             stored = f.startswith(STORED) or bool(replay)
-            args = ["-beh", f, "-out", out, "-seed", str(run.seed * 1000 + i), "-variant", vname, "-async", "8", "-quiesce",
+            args = ["-beh", f, "-out", out, "-seed", str(run.seed * 1000 + i), "-variant", vname, "-async", "8", "-quiesce", "-sub", "2" if prop == "C03" else "5",
                     "-repeat", str((8 if thorough else 4) if stored else 1)]
             if "pn" in os.path.basename(f):
                 args += ["-nodes", "2"]
